@@ -103,8 +103,9 @@ fn header_line(s: &mut Src, cfg: &GenCfg, notes: &mut Notes, out: &mut Vec<u8>) 
     let kind = s.weighted(&[10, 5, 5, 5, 3, 4, 6, 3]);
     let (name, value): (String, String) = match kind {
         0 => {
-            let names = ["X-A", "X-B", "Host", "x-a", "User-Agent", "Content-Lengt", "Expect2", "\u{212a}eep"];
-            let vals = ["v", "localhost", "a: b", "", "curl/7.0", "100-continue", "5"];
+            // (names and values a parser might be tempted to treat specially, among others)
+            let names = ["X-A", "X-B", "Host", "x-a", "User-Agent", "Content-Lengt", "Expect2", "\u{212a}eep", "Connection", "Keep-Alive", "Upgrade", "TE", "Trailer", "Content-Encoding", "Range", "Authorization", "Cookie"];
+            let vals = ["v", "localhost", "a: b", "", "curl/7.0", "100-continue", "5", "close", "keep-alive", "Close", "chunked", "timeout=5", "h2c", "\"", "\"q\"", "bytes=0-"];
             (names[s.below(names.len())].to_string(), vals[s.below(vals.len())].to_string())
         }
         1 => {
